@@ -2,6 +2,7 @@
 // (root / child / isLeaf / data / encoded bit string), next to an independent LZHUF-style reference kept in the harness.
 #include "drv.h"
 #include "Archive/AdaptiveHuffmanTree.h"
+#include "huffref.h"
 #include <memory>
 #include <vector>
 #include <cstring>
@@ -9,47 +10,7 @@ using namespace drv;
 using namespace OP2Utility::Archive;
 
 namespace {
-struct Hash { uint64_t h = 14695981039346656037ull; void add(uint64_t v) { for (int i = 0; i < 8; ++i) { h ^= (v >> (8 * i)) & 0xFF; h *= 1099511628211ull; } } };
-
-// ---- independent reference: the classic LZHUF `update` (freq / prnt / son with a sentinel), own indexing ----------
-struct RefTree {
-  unsigned T, N, R;                       // symbols, nodes, root
-  std::vector<unsigned> freq, prnt, son;
-  explicit RefTree(unsigned t) : T(t), N(2 * t - 1), R(2 * t - 2), freq(N + 1), prnt(N + t), son(N) {
-    for (unsigned i = 0; i < T; ++i) { freq[i] = 1; son[i] = i + N; prnt[i + N] = i; }
-    unsigned i = 0, j = T;
-    while (j <= R) { freq[j] = freq[i] + freq[i + 1]; son[j] = i; prnt[i] = prnt[i + 1] = j; i += 2; ++j; }
-    freq[N] = 0xFFFFFFFFu;                // sentinel
-    prnt[R] = 0;
-  }
-  void update(unsigned code) {
-    unsigned c = prnt[code + N];
-    for (;;) {
-      unsigned k = ++freq[c];
-      unsigned l = c + 1;
-      if (c != R && k > freq[l]) {        // order disturbed: exchange with the last node of the block
-        while (k > freq[l + 1]) ++l;
-        freq[c] = freq[l]; freq[l] = k;
-        unsigned i = son[c]; prnt[i] = l; if (i < N) prnt[i + 1] = l;
-        unsigned j = son[l]; son[l] = i;
-        prnt[j] = c; if (j < N) prnt[j + 1] = c;
-        son[c] = j;
-        c = l;
-      }
-      if (c == R) break;
-      c = prnt[c];
-    }
-  }
-  // preorder shape: (isLeaf, data, depth)
-  void shape(unsigned node, unsigned depth, Hash& h, unsigned& visited, unsigned& leaves) const {
-    ++visited;
-    if (son[node] >= N) { ++leaves; h.add(1); h.add(son[node] - N); h.add(depth); return; }
-    h.add(0); h.add(0); h.add(depth);
-    shape(son[node], depth + 1, h, visited, leaves);
-    shape(son[node] + 1, depth + 1, h, visited, leaves);
-  }
-};
-
+using drvref::Hash; using drvref::RefTree;
 struct Digest { uint64_t codes = 0, shape = 0; unsigned mismatch = 0, visited = 0, leaves = 0; bool refEqual = true; };
 
 // preorder walk of the real tree through its public interface; `budget` guards against a cyclic (broken) tree
